@@ -32,7 +32,7 @@ def configs(tier):
         for hw in shapes:
             for kind, kw in kinds.items():
                 for am, lm, sm in itertools.product(("batch", "sample"), ("batch", "sample"), ("roll", "flip", "random")):
-                    for mode in ("x class", "class x", "index x class"):
+                    for mode in ("x class", "class x", "index x class", "x class x", "x x class"):
                         for rc in (False, True):
                             for label in (("onehot", "binary", "onehot_int64", "onehot_float64") if B == 2 else
                                           (("onehot", "onehot_int64") if hw == shapes[0] else ("onehot",))):
@@ -168,8 +168,16 @@ def run_one(cfg, chooser):
     items = cfg["mode"].split(" ")
     if len(out) != len(items):
         return "layout_changed", repr(len(out))
-    got = dict(zip(items, out))
+    got = {}
     B = cfg["B"]
+    for it, v in zip(items, out):
+        if it not in got:
+            got[it] = v  # the first entry of a repeated item is the one the collator works on
+        elif it == "x":
+            # a second view of the image in the mode: passes through untouched
+            ref = torch.stack([torch.zeros(B, *cfg["hw"]).index_fill_(0, torch.tensor(i), 1.0) for i in range(B)])
+            if tuple(v.shape) != tuple(ref.shape) or not torch.equal(v, ref):
+                return "second_view_of_the_image_changed", "the second 'x' entry of the mode is not the plain collated batch any more"
     if "index" in got and got["index"].tolist() != [10 + i for i in range(B)]:
         return "other_item_changed", repr(got["index"])
     x, y = got["x"], got["class"]
